@@ -308,6 +308,58 @@ def m_unused_variable(p, rng):
     return _done(q, "unused-variable", "declaration", f"{d.ident()}($unused9)")
 
 
+def m_unused_variable_named_like_elsewhere(p, rng):
+    """Declared-but-unused variable whose NAME is declared and used by another declaration (state leaking between
+    declarations in the validator would hide it)."""
+    cands = []
+    for i, d in enumerate(p.decls):
+        if d.kind != "field" or d.sels is None:
+            continue
+        mine = {n for n, _t, _d in d.variables}
+        others = sorted({n for e in p.decls if e is not d and e.kind in ("field", "pointer") for n, _t, _d in e.variables} - mine)
+        if others:
+            cands.append((i, others))
+    if not cands:
+        return None
+    i, others = rng.choice(cands)
+    q = _fork(p)
+    d = q.decls[i]
+    n = rng.choice(others)
+    d.variables.append((n, named(rng.choice(["Int", "String", "Boolean"])), None))
+    return _done(q, "unused-variable/name-used-in-another-declaration", "declaration", f"{d.ident()}(${n}) while ${n} is used elsewhere")
+
+
+def m_undeclared_variable_declared_elsewhere(p, rng):
+    """$x used in a declaration that does not declare it, while ANOTHER declaration declares $x with the right type."""
+    sites = []
+    for di, d in enumerate(p.decls):
+        if d.kind not in ("field", "pointer") or d.sels is None:
+            continue
+        mine = {n for n, _t, _d in d.variables}
+        for s, _c, _i, pos, _depth in walk(p, d):
+            if not (_server(p, s) or s.kind == "client"):
+                continue
+            ad = argdefs_of(p, s) or {}
+            for ai, (a, v) in enumerate(s.args):
+                if a not in ad or not removable_value(p, d, v):
+                    continue
+                for e in p.decls:
+                    if e is d or e.kind not in ("field", "pointer"):
+                        continue
+                    for n, vt, _dv in e.variables:
+                        if n not in mine and type_str(vt) == type_str(ad[a][0]):
+                            sites.append((di, _path_of(p, d, s), pos, ai, n))
+    site = _pick(rng, sites)
+    if not site:
+        return None
+    q = _fork(p)
+    d, s, *_ = _resolve(q, site[0], site[1])
+    a, _v = s.args[site[3]]
+    s.args[site[3]] = (a, ("var", site[4]))
+    pos = site[2] if s.kind != "client" else "client-field-argument"
+    return _done(q, "undeclared-variable/declared-in-another-declaration", pos, f"{d.ident()}: {s.parent}.{s.name}({a}: ${site[4]})")
+
+
 def _wrong_literal(p, t):
     """A literal that does not satisfy type t (None if every literal kind could be fine)."""
     b = base(t)
@@ -484,7 +536,7 @@ def m_same_field_twice(p, rng):
 FAULTS = [m_undefined_field, m_object_without_selection_set, m_scalar_with_selection_set, m_undefined_argument,
           m_undefined_argument_named_id, m_missing_required_argument_scalar, m_missing_required_argument_object,
           m_missing_required_argument_client, m_undeclared_variable, m_undeclared_variable_nested_in_object,
-          m_unused_variable, m_wrong_literal_type, m_null_for_non_null, m_wrong_type_inside_object_literal,
+          m_unused_variable, m_unused_variable_named_like_elsewhere, m_undeclared_variable_declared_elsewhere, m_wrong_literal_type, m_null_for_non_null, m_wrong_type_inside_object_literal,
           m_variable_nullability, m_variable_base_type, m_variable_list_depth, m_duplicate_response_name,
           m_same_field_twice]
 
